@@ -36,19 +36,39 @@ ALL_RULES = GAUSS + INTERP + CLOSED + SUBST + TPOLY + TSTRIP  # 26
 ODD_ONLY = {"TanhSinh", "Simpson", "ExpSinh", "LogExpSinh", "ExpExp", "SingleTanh", "SingleExp", "SingleArcSinhExp"}
 N_MIN = {"GaussChebyshevType2": 1, "TrefethenGC2": 1, "TrefethenStripGC2": 1, "ExpSinh": 1, "LogExpSinh": 1, "ExpExp": 1, "SingleTanh": 1, "SingleExp": 1, "SingleArcSinhExp": 1, "TanhSinh": 3, "Simpson": 3}
 STEP_ARG = {"TanhSinh": ("delta", 0.1), "ExpSinh": ("h", 1.0), "LogExpSinh": ("h", 0.1), "ExpExp": ("h", 0.1), "SingleTanh": ("h", 0.1), "SingleExp": ("h", 0.1), "SingleArcSinhExp": ("h", 0.1)}
-GENERAL_BASES = ["GaussLegendre", "FejerFirst", "Trapezoidal", "GaussChebyshev", "MidPoint", "ClenshawCurtis", "GaussChebyshevType2", "GaussChebyshevLobatto"]
+# every rule of grid.onedgrid on [-1,1] that can be built from npoints alone is an admissible base of the General maps
+GENERAL_BASES = [
+    "GaussLegendre", "FejerFirst", "Trapezoidal", "GaussChebyshev", "MidPoint", "ClenshawCurtis", "GaussChebyshevType2", "GaussChebyshevLobatto",
+    "FejerSecond", "RectangleRuleSineEndPoints", "TanhSinh", "Simpson", "SingleTanh", "TrefethenCC", "TrefethenGC2", "TrefethenStripCC", "TrefethenStripGC2",
+]  # fmt: skip
+# bases whose nodes crowd the end points (1-|s| ~ n^-2 or exponentially small): large sizes matter for the strip map
+CROWDING_BASES = ["ClenshawCurtis", "GaussChebyshevType2", "GaussLegendre", "GaussChebyshev", "GaussChebyshevLobatto", "FejerFirst", "FejerSecond", "TanhSinh", "SingleTanh", "TrefethenCC"]
+BASE_SIZES_QUICK = [2, 3, 8, 9, 31, 32, 61, 101, 151, 256, 257, 401]
+BASE_SIZES_LARGE_QUICK = [600, 601, 703, 704, 1001]
+BASE_SIZES_THOROUGH = [2, 3, 4, 5, 8, 9, 16, 17, 31, 32, 47, 61, 64, 75, 101, 128, 151, 201, 256, 257, 301, 400, 401, 501]
+BASE_SIZES_LARGE_THOROUGH = [600, 601, 702, 703, 704, 705, 801, 1000, 1001, 1500, 1501, 2001]
 ALPHAS = [-0.9, -0.5, 0, 0.5, 1, 2, 3.7, 10]
 LAGUERRE_NMAX = 150
 
-REQUIRED_HOOKS = ["OneDGrid.__init__", "Grid.integrate", "plain-OneDGrid"] + [f"decided:{c}" for c in ALL_RULES]
-REQUIRED_FAMILIES = ["gauss", "interpolatory", "closed-form", "substitution", "trefethen-poly", "trefethen-strip", "random-params", "pinned-fejer2", "incidental"]
+REQUIRED_HOOKS = ["OneDGrid.__init__", "Grid.integrate", "plain-OneDGrid"] + [f"spelling:{s}" for s in ("int", "int64", "int32", "float64", "float32", "array0d")] + [f"decided:{c}" for c in ALL_RULES]
+REQUIRED_FAMILIES = ["gauss", "interpolatory", "closed-form", "substitution", "trefethen-poly", "trefethen-strip", "random-params", "pinned-fejer2", "incidental", "general-bases", "large-n-strip", "param-spellings"]
 BUDGET = {"quick": 400, "thorough": 3000}
 TOL_GRAM = 1e-9
 TOL_DEF = 1e-9
 DEF_FLOOR = 1e-4  # |lib-ref| / (|ref| + DEF_FLOOR): relative, with an absolute floor of TOL_DEF*DEF_FLOOR = 1e-13
 TOL_DOMAIN = 1e-12
+# strip map: within END_BAND of s = +-1 the derivative may be replaced by its end-point limit (it is what any float64
+# evaluation of G'(u)/cos(u) has to do somewhere); the true g'(s) differs from g'(+-1) by O(tau*sqrt(2(1-|s|))).
+END_BAND = 1.01e-8
+TOL_END_BAND = 1e-3  # pure relative; calibrated below
+TOL_SPELL = 1e-12  # nodes/weights for a parameter spelled as int / NumPy scalar / 0-d array vs. the Python float spelling
+TOL_F32 = 1e-4  # np.float32-typed parameter: NumPy keeps scalar prefactors in float32 (eps 1.2e-7)
 TOL_SERIES = 2e-12  # 100 x the largest value seen on the unchanged tree (2.0e-14 at n=386, n = 2..400); max |w - w(series minus last term)| / (2/n): only classifies a FejerSecond failure (signature)
-SAT_BAND = 16 * np.finfo(float).eps  # ties are tolerated only this close (relative) to a finite domain end
+# "ascending up to rounding": where the exact nodes crowd a finite domain end closer than float64 resolves (tanh saturating to
+# 1.0, exp underflowing to 0.0, a map applied to such a base rule) neighbouring nodes may tie or swap by rounding. A non-increasing
+# pair is tolerated only if BOTH nodes lie within SAT_BAND (relative) of a finite domain end AND the step back is <= MAX_BACKSTEP.
+SAT_BAND = 1e-12
+MAX_BACKSTEP = 16 * np.finfo(float).eps
 
 RULE = (
     "One case = one rule class x one size n x one value of its extra parameter (alpha; delta/h; d; rho; base rule), built through "
@@ -92,6 +112,51 @@ def _admissible(cls, n):
     return True
 
 
+def _pick_base(n, i):
+    ok = [b for b in GENERAL_BASES if _admissible(b, n)]
+    return ok[i % len(ok)]
+
+
+SPELLINGS = ["int", "int64", "int32", "float64", "float32", "array0d"]
+
+
+def _spelling_cases(tier):
+    """Every real-valued rule parameter in its integer / NumPy-scalar / 0-d array spellings (integer values where admissible)."""
+    out = []
+    ns = [3, 5, 11, 35, 101] if tier == "quick" else [1, 3, 5, 7, 11, 21, 35, 63, 101, 201, 401]
+    vals = [1, 2] if tier == "quick" else [1, 2, 3]
+    for c in SUBST:
+        for v in vals + [0.3]:
+            for n in ns:
+                if not _admissible(c, n) or ((n - 1) // 2) * v > qref.T_MAX[c]:
+                    continue
+                for sp in SPELLINGS:
+                    if v != int(v) and sp.startswith("int"):
+                        continue
+                    out.append(("param-spellings", {"cls": c, "n": n, "value": v, "as": sp}, n * 2e-3 + 0.01))
+    for v in [0, 1, 2, 3, 0.5]:
+        for n in ([2, 5, 20, 64] if tier == "quick" else [2, 3, 5, 20, 33, 64, 100, 150]):
+            for sp in SPELLINGS:
+                if v != int(v) and sp.startswith("int"):
+                    continue
+                out.append(("param-spellings", {"cls": "GaussLaguerre", "n": n, "value": v, "as": sp}, 4.0 * n**3 / 1e7 + 0.01))
+    for c in TSTRIP:
+        for v in [2, 3, 1.5]:
+            for n in ([2, 9, 40] if tier == "quick" else [2, 3, 9, 40, 101, 256]):
+                if not _admissible(c, n):
+                    continue
+                for sp in SPELLINGS:
+                    if v != int(v) and sp.startswith("int"):
+                        continue
+                    out.append(("param-spellings", {"cls": c, "n": n, "value": v, "as": sp}, n * 3e-4 + 0.01))
+    for c in TPOLY:
+        for v in (1, 5, 9):
+            for n in ([2, 9, 40] if tier == "quick" else [2, 3, 9, 40, 101, 256]):
+                for sp in ("int64", "int32", "float64", "array0d"):
+                    out.append(("param-spellings", {"cls": c, "n": n, "value": v, "as": sp}, n * 1e-4 + 0.01))
+    return out
+
+
 def _default_step_ok(cls, n):
     m = (n - 1) // 2
     return m * STEP_ARG[cls][1] <= qref.T_MAX[cls]
@@ -131,17 +196,38 @@ def cases(tier, seed):
             for d in (1, 5, 9):
                 p = {"cls": c, "n": n, "d": d}
                 if c == "TrefethenGeneral":
-                    p["base"] = GENERAL_BASES[(n + d) % len(GENERAL_BASES)]
+                    p["base"] = _pick_base(n, n + d)
                 out.append(("trefethen-poly", p, n * 5e-4 + 0.01))
         for c in TSTRIP:
             if not _admissible(c, n):
                 continue
             p = {"cls": c, "n": n, "rho": "default"}
             if c == "TrefethenStripGeneral":
-                p["base"] = GENERAL_BASES[n % len(GENERAL_BASES)]
+                p["base"] = _pick_base(n, n)
             out.append(("trefethen-strip", p, n * 3e-3 + 0.01))
             for k in range(nrand):
                 out.append(("random-params", {"cls": c, "n": n, "k": k}, n * 3e-3 + 0.01))
+    # the General maps over EVERY admissible base rule x several sizes; large sizes for end-crowding bases and for CC/GC2
+    sizes = BASE_SIZES_QUICK if tier == "quick" else BASE_SIZES_THOROUGH
+    large = BASE_SIZES_LARGE_QUICK if tier == "quick" else BASE_SIZES_LARGE_THOROUGH
+    for b in GENERAL_BASES:
+        for n in sizes + (large if b in CROWDING_BASES else []):
+            if not _admissible(b, n):
+                continue
+            for d in (5, 9):
+                out.append(("general-bases", {"cls": "TrefethenGeneral", "n": n, "d": d, "base": b}, n * 1e-4 + 0.01))
+            out.append(("general-bases", {"cls": "TrefethenStripGeneral", "n": n, "rho": "default", "base": b}, n * 3e-4 + 0.01))
+            for k in range(nrand):
+                out.append(("general-bases", {"cls": "TrefethenStripGeneral", "n": n, "k": k, "base": b}, n * 3e-4 + 0.01))
+    for c in ("TrefethenStripCC", "TrefethenStripGC2", "TrefethenCC", "TrefethenGC2"):
+        for n in large:
+            if c in TSTRIP:
+                out.append(("large-n-strip", {"cls": c, "n": n, "rho": "default"}, n * 3e-4 + 0.01))
+                for k in range(nrand):
+                    out.append(("large-n-strip", {"cls": c, "n": n, "k": k}, n * 3e-4 + 0.01))
+            else:
+                out.append(("large-n-strip", {"cls": c, "n": n, "d": 9}, n * 1e-4 + 0.01))
+    out += _spelling_cases(tier)
     for n in PINNED_FEJER2:  # witnesses of the open finding: run first, never skipped
         out.append(("pinned-fejer2", {"cls": "FejerSecond", "n": n}, 1e9))
     for i, c in enumerate(ALL_RULES):  # plain OneDGrids built by the library itself from a rule (slices, items, transforms)
@@ -165,18 +251,18 @@ def check_invariant(ctx, g):
     fin_p = bool(np.all(np.isfinite(pts))) if shape_ok else False
     fin_w = bool(np.all(np.isfinite(w))) if shape_ok else False
     d = np.diff(pts) if shape_ok else np.zeros(0)
-    desc = bool(np.any(d < 0))
-    ties = np.where(d == 0)[0]
-    bad_ties = 0
-    if len(ties) and dom is not None:
-        v = np.asarray(pts[ties], dtype=float)
-        near = np.zeros(len(ties), dtype=bool)
+    nonpos = np.where(~(d > 0))[0]  # ties, descents (and NaN)
+    tolerated = np.zeros(len(nonpos), dtype=bool)
+    if len(nonpos) and dom is not None and fin_p:
+        a, b = np.asarray(pts[nonpos], dtype=float), np.asarray(pts[nonpos + 1], dtype=float)
         for e in dom:
             if np.isfinite(e):
-                near |= np.abs(v - e) <= SAT_BAND * max(1.0, abs(e))
-        bad_ties = int((~near).sum())
-    elif len(ties):
-        bad_ties = len(ties)
+                sc = max(1.0, abs(e))
+                tolerated |= (np.abs(a - e) <= SAT_BAND * sc) & (np.abs(b - e) <= SAT_BAND * sc) & (a - b <= MAX_BACKSTEP * sc)
+    bad = nonpos[~tolerated]
+    desc = bool(np.any(d[bad] < 0)) if len(bad) else False
+    bad_ties = int(np.sum(d[bad] == 0)) if len(bad) else 0
+    ties = nonpos[tolerated]
     if not is_rule or _state["mode"] != "decide":
         tag = "plain-OneDGrid" if not is_rule else "observe-mode"
         ctx.count(f"invariant-not-deciding:{tag}")
@@ -194,10 +280,10 @@ def check_invariant(ctx, g):
     if not shape_ok:
         return
     ctx.check("finite", name, fin_p and fin_w, sig="nonfinite-" + ("points" if not fin_p else "weights"), detail={"n": int(pts.size)})
-    ok = not desc and bad_ties == 0
-    ctx.check("ascending", name, ok, sig="descending" if desc else "repeated-nodes", detail={"n": int(pts.size), "n_descents": int((d < 0).sum()), "n_ties_off_end": bad_ties})
+    ok = len(bad) == 0
+    ctx.check("ascending", name, ok, sig="descending" if desc else "repeated-nodes", detail={"n": int(pts.size), "n_descents": int((d[bad] < 0).sum()) if len(bad) else 0, "n_ties_off_end": bad_ties, "first_bad_index": int(bad[0]) if len(bad) else None})
     if len(ties) and ok:
-        ctx.count("ties-saturated-at-domain-end:" + name)
+        ctx.count("not-increasing-pairs-within-rounding-of-domain-end:" + name)
     if dom is None:
         ctx.fail("inside-domain", name, "domain-is-None")
     elif fin_p:
@@ -261,11 +347,33 @@ def _rel(lib, ref):
     return (float(e[i]) if e.size else 0.0), i
 
 
-def _check_def(ctx, name, g, xr, wr, params):
+def _check_def(ctx, name, g, xr, wr, params, band=None, tol=TOL_DEF, suffix="", s_base=None):
+    """Definition oracle at EVERY node. ``band`` (strip maps only): nodes with 0 < 1-|s| <= END_BAND, decided by their own
+    clause with a pure relative tolerance (end-point limit of the derivative admitted there)."""
     ex, ix = _rel(g.points, xr)
-    ctx.check("nodes-as-defined", name, ex, TOL_DEF, sig=_dev_sig(g.points, xr), detail={**params, "i": ix, "lib": _at(g.points, ix), "ref": _at(xr, ix)})
-    ew, iw = _rel(g.weights, wr)
-    ctx.check("weights-step-times-derivative", name, ew, TOL_DEF, sig=_dev_sig(g.weights, wr), detail={**params, "i": iw, "lib": _at(g.weights, iw), "ref": _at(wr, iw), "node": _at(g.points, iw)})
+    ctx.check("nodes-as-defined" + suffix, name, ex, tol, sig=_dev_sig(g.points, xr, tol), detail={**params, "i": ix, "lib": _at(g.points, ix), "ref": _at(xr, ix)})
+    lw = np.asarray(g.weights, dtype=float)
+    strict = np.ones(wr.shape, dtype=bool) if band is None or lw.shape != wr.shape else ~band
+    if lw.shape != wr.shape:
+        ew, iw = float("inf"), -1
+    else:
+        ew, k = _rel(lw[strict], wr[strict])
+        iw = int(np.flatnonzero(strict)[k]) if k >= 0 else -1
+    det = {**params, "i": iw, "lib": _at(g.weights, iw), "ref": _at(wr, iw), "node": _at(g.points, iw)}
+    if s_base is not None and iw >= 0:
+        det["base_node_distance_to_end"] = float(1 - abs(s_base[iw]))
+    ctx.check("weights-step-times-derivative" + suffix, name, ew, tol, sig=_dev_sig(lw[strict], wr[strict], tol) if lw.shape == wr.shape else "length", detail=det)
+    if band is not None and lw.shape == wr.shape and band.any():
+        ref, lib = wr[band], lw[band]
+        with np.errstate(all="ignore"):
+            e = np.where(ref != 0, np.abs(lib - ref) / np.abs(ref), np.where(np.abs(lib) <= 1e-300, 0.0, np.inf))
+        e = np.where(np.isnan(e), np.inf, e)
+        k = int(np.argmax(e))
+        ib = int(np.flatnonzero(band)[k])
+        ctx.check("weights-within-1e-8-of-end-limit-derivative", name, float(e[k]), TOL_END_BAND, sig="end-band:mismatch", detail={**params, "i": ib, "lib": float(lib[k]), "ref": float(ref[k]), "base_node_distance_to_end": float(1 - abs(s_base[ib])) if s_base is not None else None})
+        ctx.count("strip-nodes-in-end-band", int(band.sum()))
+        ctx.case_note("end_band_nodes", int(band.sum()))
+        ctx.case_note("end_band_rel_err", float(e[k]))
     ctx.case_note("def_err_nodes", ex)
     ctx.case_note("def_err_weights", ew)
 
@@ -277,14 +385,14 @@ def _at(a, i):
         return None
 
 
-def _dev_sig(lib, ref):
+def _dev_sig(lib, ref, tol=TOL_DEF):
     """Quantised description of how an array deviates from its reference."""
     lib = np.asarray(lib, dtype=float)
     if lib.shape != ref.shape:
         return "length"
     if not np.all(np.isfinite(lib)):
         return "nonfinite"
-    bad = np.abs(lib - ref) > TOL_DEF * (np.abs(ref) + DEF_FLOOR)
+    bad = np.abs(lib - ref) > tol * (np.abs(ref) + DEF_FLOOR)
     if not bad.any():
         return "ok"
     if np.allclose(np.sort(lib), np.sort(ref), rtol=1e-9, atol=1e-13):
@@ -299,14 +407,14 @@ def _dev_sig(lib, ref):
     return f"{where}-nodes:mismatch"
 
 
-def _gram(ctx, name, g, n, alpha=0.0):
+def _gram(ctx, name, g, n, alpha=0.0, tol=TOL_GRAM, suffix=""):
     kind, Dfun, how = POLY[name]
     D = Dfun(n)
     err, K = qref.exact_degree_profile(kind, g.points, g.weights, D, alpha)
     worst = float(np.nanmax(err)) if not np.isnan(err).all() else float("nan")
     if np.isnan(err).any():
         worst = float("nan")
-    Dp = qref.max_exact_degree(err, TOL_GRAM)
+    Dp = qref.max_exact_degree(err, tol)
     detail = None
     sig = None
     if Dp < D:
@@ -318,7 +426,7 @@ def _gram(ctx, name, g, n, alpha=0.0):
             sig += ";weights==series-minus-last-term" if dist <= TOL_SERIES else ";weights-other"
             detail["distance_to_series_minus_last_term"] = dist
             ctx.case_note("distance_to_series_minus_last_term", dist)
-    ctx.check("exact-on-polynomial-class", name, worst, TOL_GRAM, sig=sig, detail=detail)
+    ctx.check("exact-on-polynomial-class" + suffix, name, worst, tol, sig=sig, detail=detail)
     ctx.case_note("gram_max_err", worst)
     ctx.case_note("max_exact_degree", [int(Dp), int(D)])
     # the same statement through the public integrate(): sum_i w_i omega(x_i) p_m(x_i) p_0 = delta_m0, low m
@@ -330,7 +438,7 @@ def _gram(ctx, name, g, n, alpha=0.0):
         val = g.integrate(om * V[:, m], V[:, 0].copy())
         e = abs(float(val) - (m == 0))
         worst_i = max(worst_i, e) if e == e else float("nan")
-    ctx.check("exact-on-polynomial-class", name, worst_i, TOL_GRAM, sig=sig or "integrate-api-low-moment", detail={"n": n, "alpha": alpha, "via": "Grid.integrate", "max_exact_degree": Dp})
+    ctx.check("exact-on-polynomial-class" + suffix, name, worst_i, tol, sig=sig or "integrate-api-low-moment", detail={"n": n, "alpha": alpha, "via": "Grid.integrate", "max_exact_degree": Dp})
     xd = qref.documented_nodes(name, n)
     if xd is not None:
         e, i = _rel(g.points, xd)
@@ -342,8 +450,8 @@ def _size(ctx, name, g, n):
 
 
 def _n(n):
-    """Every third size is passed as a NumPy integer (admissible: the API asks for an int)."""
-    return np.int64(n) if n % 3 == 0 else int(n)
+    """Every third size is passed as np.int64, every fifth as np.int32 (admissible: the API asks for an int)."""
+    return np.int64(n) if n % 3 == 0 else (np.int32(n) if n % 5 == 0 else int(n))
 
 
 def _loguniform(rng, lo, hi):
@@ -360,6 +468,9 @@ def run_case(ctx, family, params):
         return
     if family == "incidental":
         _incidental(ctx, C, name, n)
+        return
+    if family == "param-spellings":
+        _spelling(ctx, C, name, n, params)
         return
     if n < 2:
         ctx.trivial()
@@ -419,7 +530,7 @@ def run_case(ctx, family, params):
 
     if name in TPOLY or name in TSTRIP:
         general = name.endswith("General")
-        base_name = params.get("base") or (GENERAL_BASES[int(rng.integers(len(GENERAL_BASES)))] if general else None)
+        base_name = params.get("base") or (_pick_base(n, int(rng.integers(1000))) if general else None)
         if not general:
             base_name = "ClenshawCurtis" if name.endswith("CC") else "GaussChebyshevType2"
         if general and n < 2:
@@ -444,10 +555,80 @@ def run_case(ctx, family, params):
                 gx, gd = qref.strip_map_reference(rho, base.points)
                 pr = {"n": n, "rho": rho, "base": base_name}
             _size(ctx, name, g, n)
-            _check_def(ctx, name, g, gx, gd * np.asarray(base.weights, dtype=float), pr)
+            sb = np.asarray(base.points, dtype=float)
+            band = None
+            if name in TSTRIP:
+                dist = 1.0 - np.abs(sb)
+                band = (dist > 0) & (dist <= END_BAND)
+            _check_def(ctx, name, g, gx, gd * np.asarray(base.weights, dtype=float), pr, band=band, s_base=sb)
             ctx.hit("decided:" + name)
         return
     raise ValueError(name)
+
+
+def _spell(v, sp):
+    if sp == "int":
+        return int(v)
+    if sp == "array0d":
+        return np.array(float(v))
+    return getattr(np, sp)(v)
+
+
+def _spelling(ctx, C, name, n, params):
+    """A real-valued rule parameter given as Python int / NumPy integer / NumPy float scalar / 0-d array must give the rule
+    of the equal Python float (and that rule must satisfy the definition oracle)."""
+    sp, v = params["as"], params["value"]
+    pv = _spell(v, sp)
+    fv = float(pv)
+    f32 = sp == "float32"
+    tol, tol_eq, suffix = (TOL_F32, TOL_F32, ":float32-parameter") if f32 else (TOL_DEF, TOL_SPELL, "")
+    general = name.endswith("General")
+    base_name = _pick_base(n, n + int(2 * fv)) if general else ("ClenshawCurtis" if name.endswith("CC") else "GaussChebyshevType2")
+    B = _cls(base_name) if (name in TPOLY or name in TSTRIP) else None
+
+    def build(val):
+        if name in SUBST:
+            return C(n, val) if n % 4 == 1 else C(n, **{STEP_ARG[name][0]: val})
+        if name == "GaussLaguerre":
+            return C(n, val) if n % 2 else C(n, alpha=val)
+        if general:
+            return C(n, B, val)
+        return C(n, val) if n % 2 else C(n, **{"d" if name in TPOLY else "rho": val})
+
+    subj = name
+    ctx.case_note("spelled", repr(pv))
+    if sp == "array0d":
+        try:
+            g = build(pv)
+        except Exception as exc:  # a 0-d array is not promised to be accepted: recorded, not decided
+            ctx.count(f"array0d-parameter-rejected:{name}:{type(exc).__name__}")
+            ctx.trivial()
+            return
+    with ctx.guard("constructible", subj):
+        g = build(pv)
+        r = build(int(fv) if name in TPOLY else fv)
+        _size(ctx, name, g, n)
+        ex, ix = _rel(g.points, np.asarray(r.points, dtype=float))
+        ew, iw = _rel(g.weights, np.asarray(r.weights, dtype=float))
+        ctx.check("parameter-spelling-invariant" + suffix, subj, max(ex, ew), tol_eq, sig=f"{'int' if sp.startswith('int') else sp}-spelling:" + ("nodes" if ex > tol_eq else "weights"), detail={"n": n, "value": v, "as": sp, "i": iw, "spelled": _at(g.weights, iw), "float": _at(r.weights, iw)})
+        pr = {"n": n, "value": v, "as": sp}
+        if name in SUBST:
+            xr, wr = qref.substitution_reference(name, n, fv)
+            _check_def(ctx, name, g, xr, wr, pr, tol=tol, suffix=suffix)
+        elif name == "GaussLaguerre":
+            _gram(ctx, name, g, n, fv, tol=TOL_F32 if f32 else TOL_GRAM, suffix=suffix)
+        else:
+            base = B(n)
+            sb = np.asarray(base.points, dtype=float)
+            if name in TPOLY:
+                gx, gd = qref.poly_map_reference(int(fv), sb)
+                band = None
+            else:
+                gx, gd = qref.strip_map_reference(fv, sb)
+                dist = 1.0 - np.abs(sb)
+                band = (dist > 0) & (dist <= END_BAND)
+            _check_def(ctx, name, g, gx, gd * np.asarray(base.weights, dtype=float), {**pr, "base": base_name}, band=band, tol=tol, suffix=suffix, s_base=sb)
+        ctx.hit("spelling:" + sp)
 
 
 def _observe(ctx, C, name, n, params):
